@@ -25,6 +25,29 @@ def shared_script(ctx, scale):
         lines.append('%s %s %s' % (op, E(a), E(b))); lines.append('el.eq %s %s' % (E(a), E(b)))
     for _ in range(12 * scale):
         lines.append('el.smul.Ef %s %x' % (E(pool.pick(rng)), gen.rand_field(rng, R))); lines.append('el.neg %s' % E(pool.pick(rng))); lines.append('el.double %s' % E(pool.pick(rng)))
+    # EVERY operation the two builds share, by its argument kinds: byte arguments get all slice lengths and the near-miss strings,
+    # element arguments the representative families, scalars the limb-structured values
+    sg = corr.sigs()
+    common = sorted(set(op for (b, op) in sg if b == 0) & set(op for (b, op) in sg if b == 1))
+    scal = [0, 1, 2, R - 1, R, 2**64, 2**128, 2**192 + 5, 2**64 - 1, (1 << 253) - 1] + [gen.rand_field(rng, R) for _ in range(2 * scale)]
+    fvals = [0, 1, Q - 1, 2, 5] + [gen.rand_field(rng, Q) for _ in range(3 * scale)]
+    for op in common:
+        k = sg[(1, op)]
+        if k == 'L':
+            for n in list(range(0, 36)) + [48, 63, 64, 65, 80]: lines.append('%s %s' % (op, (bytes([8] + [0] * 31) + bytes(rng.bytes(48)))[:n].hex() if n else '-'))
+            for sv in strings[:30]: lines.append('%s %s' % (op, hexb(sv)))
+        elif k in ('E', 'EE', 'EF'):
+            for _ in range(3 * scale + 2):
+                args = [E(pool.pick(rng))]
+                if k == 'EE': args.append(E(rng.choice([pool.pick(rng), parseE(args[0]), t2_translate(parseE(args[0])), neg_pt(parseE(args[0]))])))
+                if k == 'EF': args.append('%x' % rng.choice(scal))
+                lines.append('%s %s' % (op, ' '.join(args)))
+        elif k in ('F', 'FF') and op != 'fq.sqrt_ratio_zeta':
+            for _ in range(2 * scale + 2):
+                r1 = rng.choice(fvals); args = ['%x' % r1]
+                if k == 'FF': args.append('%x' % rng.choice([r1, (Q - r1) % Q, rng.choice(fvals)]))
+                lines.append('%s %s' % (op, ' '.join(args)))
+        elif k == '': lines.append(op)
     lines.append('fq.sqrt_ratio_zeta 1 4')
     for n, d in gen.sqrt_ratio_inputs(rng, 20 * scale)[:120]: lines.append('fq.sqrt_ratio_zeta %x %x' % (n, d))
     return lines
